@@ -286,6 +286,7 @@ func Scan(r *rt.Run) error {
 	for i, o := range outs {
 		if o.Skip {
 			skipped++
+			fmt.Printf("SKIPPED %s: %v\n", items[i].Tag, o.Note)
 			continue
 		}
 		for k, d := range o.Devs {
